@@ -1033,6 +1033,38 @@ func generateMore(corpus bool) {
 			}
 			run("recv", x, "random")
 		}
+		// tag-count boundary of a packed (inner) Packet: com.Packet.UnmarshalStream reads at most
+		// PacketMaxTags = 0x8000 tag words into a list sized by the 16-bit count; counts at and beyond
+		// the limit with that many non-zero tag words REALLY present (and the short variants)
+		for _, fl := range []com.Flag{0, com.FlagMultiDevice} {
+			for _, cnt := range []int{0x7FFF, 0x8000, 0x8001, 0xFFFF} {
+				for _, present := range []int{cnt, 0x8002, 3, 0} {
+					if present > cnt || (cnt == 0xFFFF && present == cnt) {
+						continue // 0xFFFF: 0x8002 words present are enough (more than the reader may take)
+					}
+					var c data.Chunk
+					sub(0xC0, 1, a, 0, pat(5, 1)).MarshalStream(&c)
+					in := payload(&c) // id 0, job 1-2, tag count 3-4, flags 5..12, device 13..44, body 45..
+					words := make([]byte, 0, 4*present)
+					for w := 0; w < present; w++ {
+						words = append(words, 0, 0, byte(w>>8)|1, byte(w))
+					}
+					x := append([]byte{}, in[:45]...)
+					x[3], x[4] = byte(cnt>>8), byte(cnt)
+					x = append(x, words...)
+					x = append(x, in[45:]...)
+					top := &com.Packet{ID: 0, Flags: com.FlagMulti | fl, Device: a}
+					top.Write(x)
+					top.Flags.SetLen(1)
+					top.Flags &^= com.FlagFrag
+					var tc data.Chunk
+					top.MarshalStream(&tc)
+					oracleOnly = present > 64
+					run("recv", payload(&tc), "inner-tag-count")
+					oracleOnly = false
+				}
+			}
+		}
 	}
 	// ---- sequences of fragment-flag Packets to ONE registered Session: through receive() with the
 	// model (recvseq: one Packet after the other; recv: the same Packets inside one Multi container)
